@@ -347,7 +347,17 @@ def scenario_partition(ctx, repo, rule):
     for n in own_nodes(gp.node):
         if isinstance(n, ast.Subscript) and isinstance(n.slice, ast.Compare) and isinstance(n.value, ast.Name) and astq.is_name(n.slice.left, n.value.id) and len(n.slice.ops) == 1 and isinstance(n.slice.comparators[0], ast.Name):
             masks.append(n)
-    ctx.require(len(masks) >= 2, "%s: time masks tvec[tvec < S] / tvec[tvec >= S] not found in ParameterScenario.get_parset" % rule)
+    odd = [n for n in own_nodes(gp.node) if isinstance(n, ast.Subscript) and isinstance(n.value, ast.Name) and n.value.id == "tvec" and not isinstance(n.slice, (ast.Constant, ast.Slice)) and not any(n is m for m in masks)]
+    if len(masks) >= 2 and odd:
+        ctx.fail(rule, gp, enclosing_stmt(odd[0]), "simulation times are also selected with `tvec[%s]`, which is not a plain comparison with the first overwrite year: the times that keep their baseline value and the times that are listed as keeping it no longer coincide" % ast.unparse(odd[0].slice)[:80], stmt_text="scenario-time-split")
+    if len(masks) < 2:
+        # the times that keep the baseline / receive the overwrite are selected by something other than a plain comparison of the time vector with the
+        # first overwrite year (a mask variable, isclose, an index range ...): report what is used instead
+        sel = [n for n in own_nodes(gp.node) if isinstance(n, ast.Subscript) and isinstance(n.value, ast.Name) and n.value.id == "tvec" and not isinstance(n.slice, (ast.Constant, ast.Slice))]
+        how = sorted({ast.unparse(n.slice) for n in sel})
+        defs = [norm(s) for s in own_nodes(gp.node) if isinstance(s, ast.Assign) and isinstance(s.targets[0], ast.Name) and any(s.targets[0].id in h for h in how)]
+        ctx.fail(rule, gp, enclosing_stmt(sel[0]) if sel else gp.node, "the scenario no longer splits the simulation times by comparing them with the first overwrite year (`tvec < S` keeps the baseline, `tvec >= S` takes the overwrite); it selects them with %s%s: any time strictly before the first overwrite year that this selection does not keep at its baseline value changes an output before the intervention starts" % (how or "nothing recognisable", (" where " + "; ".join(defs)[:200]) if defs else ""), stmt_text="scenario-time-split")
+        return
     thr = {n.slice.comparators[0].id for n in masks}
     ctx.check(len(thr) == 1, rule, gp, enclosing_stmt(masks[0]), "one threshold splits the time axis", "baseline and overwrite masks use different thresholds %s" % sorted(thr))
     if len(thr) != 1:
